@@ -809,6 +809,12 @@ prepare_for_output_pass(j_decompress_ptr cinfo)
         ERREXIT(cinfo, JERR_MODE_CHANGE);
       }
     }
+    /* Color quantization with an external colormap also requires a color
+     * quantizer, which exists only if color quantization was enabled when
+     * decompression started.
+     */
+    if (cinfo->quantize_colors && cinfo->cquantize == NULL)
+      ERREXIT(cinfo, JERR_MODE_CHANGE);
     /* In lossless mode, cinfo->idct is the lossless decompressor, whose
      * start_pass() method resets input-side (undifferencing) state.  It is
      * called by the difference buffer controller at the start of each input
